@@ -291,6 +291,22 @@ impl<T: ?Sized> Mutex<T> {
     }
 }
 
+#[cfg(all(smol_rs_async_lock_verif, feature = "std"))]
+impl<T: ?Sized> Mutex<T> {
+    /// Verification hook: `(state word, listeners registered on lock_ops)`.
+    pub fn verif_state(&self) -> (usize, usize) {
+        (
+            self.state.load(Ordering::SeqCst),
+            self.lock_ops.total_listeners(),
+        )
+    }
+
+    /// Verification hook: raw pointer to the protected value (no locking).
+    pub(crate) fn verif_peek(&self) -> *const T {
+        self.data.get()
+    }
+}
+
 impl<T: fmt::Debug + ?Sized> fmt::Debug for Mutex<T> {
     fn fmt(&self, f: &mut fmt::Formatter<'_>) -> fmt::Result {
         struct Locked;
@@ -577,6 +593,12 @@ impl<T: ?Sized, B: Unpin + Borrow<Mutex<T>>> EventListenerFuture for AcquireSlow
 
                     // If waiting for too long, fall back to a fairer locking strategy that will prevent
                     // newer lock operations from starving us forever.
+                    #[cfg(all(smol_rs_async_lock_verif, feature = "std", not(target_family = "wasm")))]
+                    match crate::verif::oracle_next() {
+                        Some(true) => break,
+                        Some(false) => continue,
+                        None => {}
+                    }
                     #[cfg(all(feature = "std", not(target_family = "wasm")))]
                     if start.elapsed() > Duration::from_micros(500) {
                         break;
